@@ -103,9 +103,31 @@ def gen_program(rng, idx, inputs=("A",), divisors=(2, -2, 3, 4), max_factors=3):
             lines.append(f"        {gen_expr(rng, atoms)}")
             lines.append("        if offdiagonal:")
             lines.append(f"            {gen_expr(rng, atoms)}")
+    # products that ARE Hermitian and are DECLARED hermitian (the Hermiticity shortcut must not change them):
+    # Sd = Sx^dagger, Hh = A + A^dagger;  "Sd @ Sx" and (if allowed) the n-ary "Sd @ Hh @ Sx"
+    herm_products = []
+    base = [nm for nm in names if starts[nm] != "1"]
+    if base and rng.random() < 0.45:
+        sx = rng.choice(base)
+        lines.append('    with "Sd":')
+        lines.append(f'        "{sx}".adj')
+        herm_products.append(f"Sd @ {sx}")
+        use = [f'"Sd @ {sx}"']
+        if max_factors >= 3 and rng.random() < 0.7:
+            lines.append('    with "Hh":')
+            lines.append(f'        "{inputs[0]}" + "{inputs[0]}".adj')
+            herm_products.append(f"Sd @ Hh @ {sx}")
+            use.append(f'"Sd @ Hh @ {sx}"')
+        lines.append('    with "Sz":')
+        lines.append("        " + " + ".join(use))
+        names = names + ["Sz"]
     for p, _, herm in allp:
         lines.append(f'    with "{p}":')
         lines.append("        pass")
+    for p in herm_products:
+        if p not in seen:
+            lines.append(f'    with "{p}":')
+            lines.append("        hermitian")
     outs = rng.sample(names, rng.randint(1, len(names)))
     lines.append("    return " + ", ".join(f'"{x}"' for x in outs) + ("," if len(outs) == 1 else ""))
     return "\n".join(lines) + "\n"
